@@ -96,12 +96,13 @@ type stallInfo struct {
 }
 
 type peer struct {
-	sc     *Scenario
-	conn   *pipeConn
-	hw     *holdWriter
-	paused atomic.Bool // the script stopped the reader (client writes back up)
-	fr     *xh2.Framer
-	rts    []*reqRuntime
+	sc       *Scenario
+	conn     *pipeConn
+	hw       *holdWriter
+	resumeAt int         // tick at which a reader stopped by PingMidBlock resumes (0: not stopped)
+	paused   atomic.Bool // the script stopped the reader (client writes back up)
+	fr       *xh2.Framer
+	rts      []*reqRuntime
 
 	mu        sync.Mutex // guards everything below, the log and all writes
 	log       []Event
@@ -293,6 +294,15 @@ func (p *peer) handle(f xh2.Frame) {
 			st.cliEnded = true
 		}
 		p.feedHeaders(st, f.HeaderBlockFragment(), f.HeadersEnded())
+		if p.sc.PingMidBlock && !f.HeadersEnded() && p.resumeAt == 0 && p.ok() {
+			// the rest of the block is still on its way (or stuck in the client's writer):
+			// stop reading for a while and send a PING now
+			p.logEvent(e)
+			p.paused.Store(true)
+			p.resumeAt = p.ticks + 30
+			p.sendPing()
+			return
+		}
 	case *xh2.ContinuationFrame:
 		if st := p.streams[h.StreamID]; st != nil {
 			p.feedHeaders(st, f.HeaderBlockFragment(), f.HeadersEnded())
@@ -446,6 +456,8 @@ func (p *peer) step(tick bool) {
 				}
 			}
 			p.sendWU(sid, a.Inc)
+		case "ping":
+			p.sendPing()
 		case "pause-read":
 			p.paused.Store(true)
 		case "resume-read":
@@ -478,6 +490,10 @@ func (p *peer) step(tick bool) {
 		if uploading && p.book.connWin < p.sc.LowConn {
 			p.sendWU(0, p.nextInc())
 		}
+	}
+	if p.resumeAt > 0 && p.ticks >= p.resumeAt && p.paused.Load() {
+		p.paused.Store(false)
+		p.resumeAt = 0 // the next multi-frame header block is probed again
 	}
 	// responses, upload resets
 	more := false
